@@ -315,7 +315,12 @@ pub fn run(out_dir: &str, tier: &str, seed: u64, only: Option<String>, search_n:
         v.push_str(&inputs_def("P_inputs", &st1));
         v.push_str(BODY_COMMON);
         v.push_str(&BODY_1.replace("PREC", &format!("{prec}%Z")));
-        if t1.leaks.is_empty() {
+        // a program is closed if no f64 value is re-injected: no constant differs between the two trace states AND the
+        // program does not depend on the number of implicit sweeps (re-injected values that happen to be bit-identical at
+        // the two trace states, e.g. monomer fractions equal to 1 in a dilute gas, still show up as a K-dependent program)
+        let same123 = t1.prog.instrs == t2.prog.instrs && t2.prog.instrs == t3.prog.instrs;
+        let leaky = !t1.leaks.is_empty() || !same123;
+        if !leaky {
             v.push_str("Lemma P_closed : P_nleaks = 0%N.\nProof. reflexivity. Qed.\n");
         }
         if do2 {
@@ -341,12 +346,11 @@ pub fn run(out_dir: &str, tier: &str, seed: u64, only: Option<String>, search_n:
                 fd_fail.extend(f.into_iter().take(3));
             }
         }
-        let same123 = t1.prog.instrs == t2.prog.instrs && t2.prog.instrs == t3.prog.instrs;
         results.push(json!({
             "name": c.name, "ncomp": c.ncomp, "nvars": c.ncomp + 2,
             "ninstr": ninstr, "ninstr_k": [ninstr, t2.prog.instrs.len(), t3.prog.instrs.len()],
             "nconsts": t1.prog.consts.len(), "outs": t1.prog.outs,
-            "programs_identical_for_all_sweep_counts": same123,
+            "programs_identical_for_all_sweep_counts": same123, "leaky": leaky,
             "same_shape": t1.same_shape && t2.same_shape && t3.same_shape, "leaks": t1.leaks,
             "leak_values": t1.leak_values, "unsupported": t1.prog.unsupported,
             "order2": do2, "order3": do3,
